@@ -189,6 +189,10 @@ func (p *Parser) lookupType(typeName string, pos token.Pos) (*types.Scope, types
 		return nil, nil
 	}
 
+	if len(names) != 2 || !ast.IsExported(names[1]) {
+		// "pkg.F.more" names nothing, and an unexported name of another package cannot be referred to.
+		return nil, nil
+	}
 	scope := pkg.Types.Scope()
 	obj := scope.Lookup(names[1])
 	return scope, obj
@@ -222,6 +226,11 @@ func (p *Parser) resolveConverters(generatingMethods []*bmodel.MethodEntry, conv
 			err = logger.Errorf("%v: function %v cannot use as a converter", p.fset.Position(pos), name)
 			continue
 		}
+		if 0 < len(method.AdditionalArgVars()) {
+			// The call is written F(x): there is nothing to pass for further parameters.
+			err = logger.Errorf("%v: function %v cannot use as a converter", p.fset.Position(pos), name)
+			continue
+		}
 		conv.Set(method.SrcVar().Type(), method.DstVar().Type(), method.RetError())
 		return nil
 	}
@@ -247,6 +256,11 @@ func (p *Parser) lookupConverterFunc(funcName string, pos token.Pos) (argType, r
 		return
 	}
 	if sig.Params().Len() != 1 || sig.Results().Len() < 1 || 2 < sig.Results().Len() {
+		err = logger.Errorf("%v: function %v cannot use as a converter", p.fset.Position(pos), funcName)
+		return
+	}
+	if sig.Variadic() {
+		// The call is written F(x): a variadic parameter would need F(x...).
 		err = logger.Errorf("%v: function %v cannot use as a converter", p.fset.Position(pos), funcName)
 		return
 	}
